@@ -65,7 +65,7 @@ def main(argv=None):
     for ui, u in enumerate(prop.units):
         nvar = len(getattr(getattr(u, "contract", None), "variants", [None])) if hasattr(u, "contract") else 1
         if getattr(u, "kind", "") in ("contract",) and hasattr(u, "contract") and nvar > 1:
-            for vi in range(nvar):
+            for vi in (u.variant_indices() if hasattr(u, "variant_indices") else range(nvar)):
                 jobs.append((args.pid, ui, vi, args.repo, tier, seed))
         else:
             jobs.append((args.pid, ui, None, args.repo, tier, seed))
@@ -166,6 +166,10 @@ def main(argv=None):
                "model": {k: (v if len(str(v)) < 300 else str(v)[:300] + "...") for k, v in (ob.model or {}).items()}, "meta": _jsonable(ob.meta),
                "repo": index.repo}
         replay = ob.meta.get("prefound")
+        if not replay and ob.kind == "bounded" and isinstance(ob.meta.get("detail"), dict) and ob.meta["detail"].get("input") is not None:
+            # a bounded stand-in fails on a concrete input it executed on the real code: that input is the replay
+            replay = {"found": True, "input": ob.meta["detail"]["input"], "observed": ob.meta["detail"].get("observed"),
+                      "how": "bounded execution of the real function on this input"}
         for prefix, fn in ([] if replay else prop.replayers.items()):
             if nn.startswith(prefix) or fnmatch.fnmatch(nn, prefix):
                 try:
@@ -189,6 +193,13 @@ def main(argv=None):
         exit_code = 2
 
     # ---- evidence
+    distinct = set()
+    for r in results:
+        if not getattr(r, "deductive", True):
+            continue
+        for ob in r.obligations:
+            if ob.kind != "cover" and ob.backend != "z3-simplify":
+                distinct.add(ob.meta.get("vc_sha") or ob.name)
     level = prop.level
     samples = []
     for r in results:
@@ -221,13 +232,16 @@ def main(argv=None):
             "samples": samples[:12],
             "bounded": bounded_info,
             "cover_checks": sum(1 for r in results for ob in r.obligations if ob.kind == "cover"),
+            "cover_undecided": [ob.name for r in results for ob in r.obligations if ob.kind == "cover" and ob.verdict == "undecided"][:20],
             "known_findings": [{"obligation": k["obligation"], "instances": len(obs)} for k, obs in seen_known.values()],
             "violations": viol_records,
             "undecided": undecided[:20], "faults": faults[:20],
             "explanation": f"{prop.technique}. {n_dis}/{n_obl} obligations discharged; bounded stand-ins are listed under "
                            "'bounded' and are not counted; known findings are listed separately and not counted.",
-            "evaluations": max(n_obl, 1), "distinct_nontrivial": max(n_dis, 2) if n_dis >= 2 else 2,
-            "rule": "one evaluation = one verification condition generated from the current source of the functions under contract",
+            "evaluations": n_obl, "distinct_nontrivial": len(distinct),
+            "rule": "one evaluation = one verification condition (or one table entry / scanned site) generated from the current source of the "
+                    "functions under contract; distinct = different SMT-LIB text (sha1 of the full query) or different table/site name; "
+                    "non-trivial = not already closed by z3's simplifier at generation time (those are counted under by_backend['z3-simplify'])",
             "repo": index.repo,
         },
         "assumptions": assumed,
